@@ -296,7 +296,10 @@ func derefLoad(v ssa.Value) ssa.Value {
 // c12RunGuards checks the interpreter side of write protection and returns
 // whether the CALL-with-value special case is present.
 func c12RunGuards(c *eng.Ctx, r *eng.Report, run *ssa.Function) bool {
-	const rule = "R12.2"
+	return c12RunGuardsAs(c, r, run, "R12.2")
+}
+
+func c12RunGuardsAs(c *eng.Ctx, r *eng.Report, run *ssa.Function, rule string) bool {
 	// locate operation.execute(...) dynamic call
 	var exec ssa.Instruction
 	for _, s := range eng.Sites(run) {
@@ -365,8 +368,9 @@ func c12RunGuards(c *eng.Ctx, r *eng.Report, run *ssa.Function) bool {
 
 // ---------------------------------------------------------------- R12.3
 
-func c12Sticky(c *eng.Ctx, r *eng.Report) {
-	const rule = "R12.3"
+func c12Sticky(c *eng.Ctx, r *eng.Report) { c12StickyAs(c, r, "R12.3") }
+
+func c12StickyAs(c *eng.Ctx, r *eng.Report, rule string) {
 	r.Min(rule, 2)
 	run := c.Func("vm", "(*EVMInterpreter).Run")
 	if !r.Anchor(run != nil, rule, "vm.(*EVMInterpreter).Run") {
@@ -459,6 +463,42 @@ func c12Prepare(c *eng.Ctx, r *eng.Report) {
 		r.Check(fresh, rule, key, c.Pos(prep.Pos()),
 			"Prepare assigns a freshly constructed value to AccountDB."+f,
 			"Prepare does not re-initialise AccountDB."+f+": per-transaction scratch state leaks into the next transaction of the block")
+	}
+	// whatever Prepare assigns is a value of its own: a parameter, a constant or a fresh object — never a
+	// re-slice (or alias) of what the previous transaction left in the same AccountDB
+	for i, b := range prep.Blocks {
+		for _, in := range b.Instrs {
+			st, ok := in.(*ssa.Store)
+			if !ok {
+				continue
+			}
+			t, f := eng.FieldOf(st.Addr)
+			if t != "storage/account.AccountDB" {
+				continue
+			}
+			reuse := ""
+			var walk func(v ssa.Value, d int)
+			walk = func(v ssa.Value, d int) {
+				if v == nil || d > 4 || reuse != "" {
+					return
+				}
+				switch x := v.(type) {
+				case *ssa.Slice:
+					walk(x.X, d+1)
+				case *ssa.UnOp:
+					if t2, f2 := eng.FieldOf(x.X); t2 == "storage/account.AccountDB" {
+						reuse = f2
+					}
+				case *ssa.Phi:
+					for _, e := range x.Edges {
+						walk(e, d+1)
+					}
+				}
+			}
+			walk(st.Val, 0)
+			_ = i
+			r.Check(reuse == "", rule, "Prepare:fresh-value:"+f, c.Pos(st.Pos()), "assigned from a parameter, a constant or a fresh object", "Prepare sets AccountDB."+f+" to a value derived from the previous contents of AccountDB."+reuse+" ("+eng.Desc(st.Val)+"): a truncated slice keeps its backing array, so what the previous transaction handed out (e.g. its receipt's logs) is overwritten by the next transaction")
+		}
 	}
 	// executor side
 	ex := c.Func("core", "(*VMExecutor).Execute")
